@@ -56,7 +56,27 @@ def gen_scenario(rng, thorough):
     ch = rng.choice([0, 0, 1, 2])
     n = rng.choice([0, 1, 2, 3, 4, 5, 6, 8, 11, 14])
     pool = []
-    scores = rng.sample(SCORES, rng.randint(1, 4))      # few distinct scores => many ties
+    scores = rng.sample(SCORES, rng.randint(2, 4) if rng.random() < 0.6 else 1)      # few distinct scores => many ties
+
+    def read_empty():
+        # a reader arrives before the first publish (of this epoch): the read creates the channel record
+        r = rng.random()
+        if r < 0.4:
+            emit("state ch=%d dt=0 lim=%d cur=- key=- asc=%d rev=-" % (ch, rng.choice([-1, 0, 2]), rng.randint(0, 1)))
+        elif r < 0.7:
+            emit("stream ch=%d dt=0 since=- lim=%d rev=0" % (ch, rng.choice([-1, 0])))
+        else:
+            emit("pages ch=%d dt=0 lim=%d asc=%d" % (ch, rng.choice([1, 3, -1]), rng.randint(0, 1)))
+    pre = rng.random()
+    if pre < 0.45:
+        read_empty()
+    elif pre < 0.6:
+        # populate, clear, read the empty channel, populate again
+        for i in range(rng.randint(1, 3)):
+            emit(pub(ch, gen_key(rng, pool), 1, 100 + i, rng.choice(scores)))
+        emit("clear ch=%d dt=1" % ch)
+        if rng.random() < 0.8:
+            read_empty()
     for i in range(n):
         k = gen_key(rng, pool)
         pool.append(k)
